@@ -583,6 +583,18 @@ example :
        ["/p/f/k".toList]) := by
   refine ⟨by decide, .child (.next (.child (.next .here))), .child (.next (.pipe (by simp))), by decide, by decide⟩
 
+/-- `args_present_at_start_tree` instantiated on the nested tree: consumer `C2`, reference
+`P.bag.f` (the file-typed member of the struct literal), every node with the same configuration -/
+example : ∃ t, ("P", t) ∈ build (opsOf bigTree) := by
+  have hsc : scopedB [] bigTree = some ["TOP", "SUB", "C2", "C1", "P"] := by decide
+  have sc : Scoped [] bigTree ["TOP", "SUB", "C2", "C1", "P"] := scoped_decided bigTree _ hsc
+  have hst : HasStage bigTree "C2" [(.map (.cons "f" (.ref "P" "bag.f") (.cons "n" (.ref "P" "bag.n") .nil)),
+      .struct (.mcons "f" (.prim true) (.mcons "n" (.prim false) .mnil)))] :=
+    .child (.next (.child (.next .here)))
+  obtain ⟨t, ht, _⟩ := args_present_at_start_tree bigTree _ sc (fun _ => exCfg) (fun _ => []) []
+    "C2" _ hst _ List.mem_cons_self "P" "bag.f" (by decide)
+  exact ⟨t, ht⟩
+
 /-- two forks, interleaved: the completion of `C` is seen by both -/
 example :
     let fs : List PFork := [⟨"P1", exCfg, exSt⟩, ⟨"P2", exCfg, exSt⟩]
